@@ -192,7 +192,7 @@ func (g *gen) genNew() {
 	keytest := !malformed && (r.P(1, 12) || (g.opt["keyheavy"] != "" && r.P(1, 3)))
 	// long constant columns: a frame of one to three constant columns with a row count beyond the block sizes a
 	// constructor might fill by (1024, 2048), every row observed
-	bigconst := !malformed && !keytest && g.opt["newonly"] == "" && r.P(1, 60)
+	bigconst := !malformed && !keytest && g.opt["bigconst"] != "" && r.P(1, 4) // only in the section made for it: every later step re-reads these rows
 	if bigconst {
 		ncols = 1 + r.Intn(3)
 		n = r.PickInt([]int{1023, 1025, 2047, 2500, 3000})
